@@ -202,3 +202,133 @@ Proof.
       assert (E1 : c1 == x1) by (destruct S1 as [[? ?]|[[? ?]|[? ?]]]; lra).
       rewrite E0, E1. ring.
 Qed.
+
+(* ---------- a relation between all neighbours of a list ---------- *)
+Inductive adjall (R : Q -> Q -> Prop) : list Q -> Prop :=
+| adj_nil : adjall R []
+| adj_one a : adjall R [a]
+| adj_cons a b r : R a b -> adjall R (b :: r) -> adjall R (a :: b :: r).
+
+(* neighbours a <= b of a sorted list have no element of the list strictly between them *)
+Lemma adjall_sorted (R : Q -> Q -> Prop) (pts0 : list Q) : forall pts,
+  sorted pts ->
+  (forall t, In t pts0 -> In t pts \/ (forall u, In u pts -> t <= u)) ->
+  (forall a b, a <= b -> (forall t, In t pts0 -> t <= a \/ b <= t) -> R a b) ->
+  adjall R pts.
+Proof.
+  induction pts as [|a [|b r] IH]; intros Hs Hcov Hstep; try constructor.
+  - inversion Hs as [|? ? Hs' Hall]; subst. rewrite Forall_forall in Hall.
+    apply Hstep; [apply Hall; now left|]. intros t Ht.
+    destruct (Hcov t Ht) as [[->|Hin]|Hlow].
+    + left. lra.
+    + right. inversion Hs' as [|? ? _ Hall']; subst. rewrite Forall_forall in Hall'.
+      destruct Hin as [->|Hin]; [lra|]. now apply Hall'.
+    + left. apply Hlow. now left.
+  - inversion Hs as [|? ? Hs' Hall]; subst. rewrite Forall_forall in Hall.
+    apply IH; [exact Hs'| |exact Hstep].
+    intros t Ht. destruct (Hcov t Ht) as [[->|Hin]|Hlow].
+    + right. exact Hall.
+    + now left.
+    + right. intros u Hu. apply Hlow. now right.
+Qed.
+
+Lemma adjall_snoc (R : Q -> Q -> Prop) l : forall b a, adjall R (l ++ [b]) -> R b a -> adjall R ((l ++ [b]) ++ [a]).
+Proof.
+  induction l as [|c [|d r] IH]; intros b a H Hba.
+  - simpl. constructor; [exact Hba|constructor].
+  - simpl in *. inversion H; subst. constructor; [assumption|]. constructor; [exact Hba|constructor].
+  - change (((c :: d :: r) ++ [b]) ++ [a]) with (c :: ((d :: r) ++ [b]) ++ [a]).
+    change ((c :: d :: r) ++ [b]) with (c :: d :: (r ++ [b])) in H. inversion H; subst.
+    change (c :: ((d :: r) ++ [b]) ++ [a]) with (c :: d :: ((r ++ [b]) ++ [a])).
+    constructor; [assumption|]. change (d :: (r ++ [b]) ++ [a]) with (((d :: r) ++ [b]) ++ [a]). apply IH; assumption.
+Qed.
+Lemma adjall_rev (R : Q -> Q -> Prop) l : (forall a b, R a b -> R b a) -> adjall R l -> adjall R (rev l).
+Proof.
+  intros Hsym. induction 1 as [|a|a b r Hab Hr IH]; simpl; try constructor.
+  simpl in IH. apply adjall_snoc; [exact IH|]. apply Hsym, Hab.
+Qed.
+Lemma axpar_map (fx fy : Q -> Q) l :
+  adjall (fun a b => fx a == fx b \/ fy a == fy b) l -> axpar (map fx l) (map fy l).
+Proof. induction 1; simpl; constructor; assumption. Qed.
+
+(* ---------- sums weighted by position ---------- *)
+Fixpoint wsum (w : Z -> Q) (j : Z) (l : list Q) (g : Q -> Q) : Q :=
+  match l with [] => 0 | v :: r => w j * g v + wsum w (j + 1) r g end.
+
+Lemma wsum_ext w w' l g g' : forall j,
+  (forall i, w i == w' i) -> (forall v, In v l -> g v == g' v) -> wsum w j l g == wsum w' j l g'.
+Proof.
+  induction l as [|v r IH]; intros j Hw Hg; simpl; [reflexivity|].
+  rewrite (Hw j), (Hg v) by now left. rewrite (IH (j + 1)%Z Hw); [reflexivity|]. intros u Hu. apply Hg. now right.
+Qed.
+Lemma wsum_add_w w1 w2 l g : forall j, wsum (fun i => w1 i + w2 i) j l g == wsum w1 j l g + wsum w2 j l g.
+Proof. induction l as [|v r IH]; intros j; simpl; [lra|]. rewrite IH. lra. Qed.
+Lemma wsum_zero w l g : forall j, Forall (fun v => g v == 0) l -> wsum w j l g == 0.
+Proof.
+  induction l as [|v r IH]; intros j H; simpl; [reflexivity|]. inversion H as [|? ? Hv Hr]; subst.
+  rewrite Hv, IH by assumption. lra.
+Qed.
+Lemma trapzf_wsum {T} (w : Z -> Q) (g : Q -> T -> Q) (c0 : Q) (y : T -> Q) (L : list T) l : forall j,
+  trapzf (fun t => c0 + wsum w j l (fun v => g v t)) y L == wsum w j l (fun v => trapzf (g v) y L).
+Proof.
+  induction l as [|v r IH]; intros j.
+  - cbn [wsum]. rewrite (trapzf_ext _ (fun _ => c0) y y L); [apply trapzf_const_x|intros; ring|intros; reflexivity].
+  - cbn [wsum]. rewrite <- (IH (j + 1)%Z).
+    rewrite (trapzf_ext _ (fun t => w j * g v t + (c0 + wsum w (j + 1) r (fun v0 => g v0 t))) y y L);
+      [|intros; ring|intros; reflexivity].
+    rewrite (trapzf_add_x (fun t => w j * g v t) (fun t => c0 + wsum w (j + 1) r (fun v0 => g v0 t)) y L).
+    rewrite (trapzf_scale_x (w j) (g v) y L). reflexivity.
+Qed.
+
+(* telescoping along a list on which the accepted elements form a prefix *)
+Fixpoint pref (f : Q -> bool) (l : list Q) : Prop :=
+  match l with [] => True | v :: r => (f v = false -> Forall (fun u => f u = false) r) /\ pref f r end.
+Lemma wsum_prefix (Phi : Z -> Q) (f : Q -> bool) l : forall j, pref f l ->
+  wsum (fun i => Phi (i + 1)%Z - Phi i) j l (fun v => b2q (f v)) == Phi (j + count f l)%Z - Phi j.
+Proof.
+  induction l as [|v r IH]; intros j Hp.
+  - simpl. rewrite Z.add_0_r. lra.
+  - destruct Hp as [Hv Hr]. cbn [wsum count]. destruct (f v) eqn:E; cbn [b2q].
+    + rewrite (IH (j + 1)%Z Hr). replace (j + (1 + count f r))%Z with (j + 1 + count f r)%Z by lia. lra.
+    + specialize (Hv eq_refl). rewrite wsum_zero.
+      * rewrite (count_none f r Hv). rewrite !Z.add_0_r. lra.
+      * eapply Forall_impl; [|exact Hv]. simpl. intros u Hu. rewrite Hu. reflexivity.
+Qed.
+Lemma pref_sorted (R : Q -> Q -> Prop) (f : Q -> bool) l :
+  StronglySorted R l -> (forall a b, R a b -> f a = false -> f b = false) -> pref f l.
+Proof.
+  intros Hs Hf. induction Hs as [|a r Hr IH Hall]; simpl; [exact I|]. split; [|exact IH].
+  intros Ha. eapply Forall_impl; [|exact Hall]. simpl. intros b Hab. now apply (Hf a b).
+Qed.
+Lemma sorted_rev_desc (l : list Q) : sorted l -> StronglySorted (fun a b => b <= a) (rev l).
+Proof.
+  unfold sorted. induction 1 as [|a r Hr IH Hall]; simpl; [constructor|].
+  assert (G : forall l' : list Q, StronglySorted (fun a b => b <= a) l' -> Forall (fun v => a <= v) l' ->
+              StronglySorted (fun a b => b <= a) (l' ++ [a])).
+  { induction l' as [|c l' IHl]; intros Hs Hge; simpl; [constructor; constructor|].
+    inversion Hs; subst. inversion Hge; subst. constructor; [now apply IHl|].
+    apply Forall_app. split; [assumption|]. constructor; [assumption|constructor]. }
+  apply G; [exact IH|]. apply Forall_forall. intros v Hv. rewrite Forall_forall in Hall. apply Hall. now apply in_rev.
+Qed.
+
+(* length of the intersection of [a,b] with [lo,up] *)
+Definition ovl (a b lo up : Q) : Q := Qmax2 0 (Qmin2 b up - Qmax2 a lo).
+Lemma ovl_clamp a b lo up : a <= b -> lo <= up -> ovl a b lo up == clampQ lo up b - clampQ lo up a.
+Proof.
+  intros Hab Hlu. unfold ovl, clampQ, Qmin2, Qmax2.
+  destruct (Qleb a lo) eqn:E1, (Qleb b lo) eqn:E2, (Qleb b up) eqn:E3; qb; try lra;
+  repeat match goal with |- context [Qleb ?x ?y] => destruct (Qleb x y) eqn:?; qb; try lra end.
+Qed.
+Lemma ovl_additive a b lo mid up : a <= b -> lo <= mid -> mid <= up ->
+  ovl a b lo mid + ovl a b mid up == ovl a b lo up.
+Proof.
+  intros Hab H1 H2. rewrite !ovl_clamp by lra.
+  destruct (clampQ_spec lo mid a H1) as [[? E1]|[[? E1]|[? E1]]];
+  destruct (clampQ_spec mid up a H2) as [[? E2]|[[? E2]|[? E2]]];
+  destruct (clampQ_spec lo up a ltac:(lra)) as [[? E3]|[[? E3]|[? E3]]];
+  destruct (clampQ_spec lo mid b H1) as [[? E4]|[[? E4]|[? E4]]];
+  destruct (clampQ_spec mid up b H2) as [[? E5]|[[? E5]|[? E5]]];
+  destruct (clampQ_spec lo up b ltac:(lra)) as [[? E6]|[[? E6]|[? E6]]]; lra.
+Qed.
+Lemma ovl_nonneg a b lo up : 0 <= ovl a b lo up.
+Proof. unfold ovl, Qmax2. destruct (Qleb 0 _) eqn:E; qb; lra. Qed.
